@@ -72,6 +72,8 @@ fn atoms() -> Vec<Atom> {
         // (a failing referenced program is a failed operand like any other)
         Atom { lit: "pgt", var: "pgt", val: V::Ok(CelValue::Bool(true)) },
         Atom { lit: "pgf", var: "pgf", val: V::Fail },
+        // a conversion whose argument fails is a failed operand like any other
+        Atom { lit: "bool(1/0)", var: "int(qq.f)", val: V::Fail },
     ]
 }
 
@@ -330,7 +332,10 @@ fn check_tree(rep: &mut Report, pending: &mut Vec<Pending>, t: &T, at: &[Atom], 
 
 /// one truthiness: every place that tests a value agrees with the table
 fn truthiness_everywhere(rep: &mut Report, pending: &mut Vec<Pending>) {
-    let forms: [(&str, bool); 10] = [
+    let forms: [(&str, bool); 12] = [
+        // the same tests with a map as the receiver (filter and map have a separate code path for maps; all / exists / exists_one take lists only)
+        ("({'k': 0}.filter(q, X) != [])", true),
+        ("({'k': 0}.map(q, X, 1) == [1])", true),
         ("(X ? true : false)", true),
         ("!X", false),
         ("(X || false)", true),
